@@ -1,3 +1,5 @@
+import RdsProofs.C08Cb
+import RdsProofs.RefineProofs
 import RdsProofs.Reach
 import RdsProofs.ExtraProofs
 import RdsProofs.CellsProofs
@@ -11,6 +13,7 @@ init/clear no cell level of that text increases, except in the RT buffer that an
 `C07_error_free_stable`: a cell at level 0 is only changed by an error-free reception.
 -/
 -- THEOREM: RDS.C07
+-- THEOREM: RDS.C07_error_free_taken
 -- THEOREM: RDS.C07_history_ps
 -- THEOREM: RDS.C07_history_ptyn
 -- THEOREM: RDS.C07_level0_sticky_ps
@@ -25,6 +28,12 @@ init/clear no cell level of that text increases, except in the RT buffer that an
 -- THEOREM: RDS.C07_converges
 -- THEOREM: RDS.C07_converges_string
 namespace RDS
+
+/-- C07's convergence clause per call, for every history: in a text with progressive correction on, an error-free reception
+addressed to a cell is always taken (marker for 0x0D, old content for a control code, otherwise the table image at level 0) -/
+theorem C07_error_free_taken (tb : Tabs) (h : EccOk tb) (ops : List Op) (op : Op) :
+    chkC07conv tb.cfg (monAfter tb.cfg ops) (recOf tb.cfg (run tb.cfg ops) op) = true :=
+  chkC07conv_of_chkC02 _ _ _ (chkC02_ok tb _ _ op (reach tb h ops).1 (reach tb h ops).2)
 
 /-- C07 for every history and every next call -/
 theorem C07 (tb : Tabs) (h : EccOk tb) (ops : List Op) (op : Op) :
